@@ -519,11 +519,56 @@ func runLongWindow(j Job) (res Result) {
 	return
 }
 
+// rlpDomains: an Ethereum transaction is signed for a chain id whose bits 30..31 name the wrapper format it may travel
+// in (0 = memo "RLP", 1 = memo "RLP.V2"); the two unassigned values belong to no format. A payload signed for domain
+// 2 or 3 must not execute under either memo (otherwise ONE signature is a valid transaction in two formats, with
+// different fee / nonce semantics); the assigned domains are the control.
+func rlpDomains(res *Result) {
+	w := txlab.NewWorld()
+	l, err := txlab.NewLab(w, 2, nil)
+	if err != nil {
+		res.Err = err.Error()
+		return
+	}
+	defer l.Close()
+	a := w.P[txlab.KETH][txlab.PA]
+	empty := l.ProbeBlock(nil, false)
+	for domain := uint64(0); domain < 4; domain++ {
+		for _, v2 := range []bool{false, true} {
+			evm := w.NetworkID<<32 | domain<<30 | w.ChainID
+			raw, _, e := txlab.WrapRLP(&fsm.MessageSend{FromAddress: a.Addr, ToAddress: w.Recipient, Amount: 1000}, a, v2,
+				txlab.TxOpts{Created: l.C.Height(), Fee: 20001, Net: w.NetworkID, Chain: w.ChainID, Nonce: 1, EVMChain: evm})
+			if e != nil {
+				res.Notes = append(res.Notes, "rlp-domain: "+e.Error())
+				continue
+			}
+			ex, diff, et := probe(l, [][]byte{raw}, empty.State)
+			res.Evaluations++
+			res.Outcomes[fmt.Sprintf("rlp-domain|domain=%d|v2-wrapper=%v|executed=%v|%s", domain, v2, ex, txlab.ErrClass(et))]++
+			assigned := (domain == 0 && !v2) || (domain == 1 && v2)
+			if ex && !assigned {
+				res.Hits = append(res.Hits, Hit{Kind: "cross", Class: fmt.Sprintf("rlp-domain-%d", domain), Where: fmt.Sprintf("wrapper v2=%v", v2),
+					Desc: fmt.Sprintf("an Ethereum transaction signed for chain id %#x (RLP domain %d) executes in the wrapper format v2=%v", evm, domain, v2), Base: "send/rlp-domain",
+					BaseHex: hex.EncodeToString(raw), VarHex: hex.EncodeToString(raw), Diff: txlab.DescribeDiff(diff, w)})
+			}
+			if !ex && assigned {
+				res.Notes = append(res.Notes, fmt.Sprintf("rlp-domain control: domain %d in its own wrapper (v2=%v) does not execute: %s", domain, v2, txlab.ShortErr(et)))
+			}
+		}
+	}
+}
+
 // runCross: the transaction signed for (network 1, chain 1) and committed there is submitted
 // on a chain with another network id and on a chain with another chain id (same genesis
 // accounts); a transaction signed for that chain is the control.
 func runCross(j Job) (res Result) {
 	res = newResult()
+	if j.Base.Msg == fsm.MessageSendName && j.Base.Kind == txlab.KBLS && j.Base.Memo == "" {
+		rlpDomains(&res) // once per run (the first cross job)
+		if res.Err != "" {
+			return
+		}
+	}
 	home := txlab.NewWorld()
 	var baseRaw []byte
 	{
